@@ -383,6 +383,24 @@ def single_reject(items):
             yield (cell[0], cell[1], cell[2], 'filter-one'), s2
 
 
+REVERSED_BUILDER = ['method', 'transpose', 'target', 'prio']
+
+
+def reordered(items):
+    """the same scenarios with the builder methods called in the opposite order (closure first; priority / pre() /
+    post() / transpose() last): the configuration must not depend on the order of the calls"""
+    for cell, scen in items:
+        kind, spec = scen['steps'][-1]
+        sp = dict(spec)
+        if kind == 'search':
+            sp['order'] = REVERSED_BUILDER
+        else:
+            sp['method_first'] = True
+        s2 = dict(scen)
+        s2['steps'] = scen['steps'][:-1] + [[kind, sp]]
+        yield (cell[0], cell[1], str(cell[2]) + '-reordered', cell[3]), s2
+
+
 def with_repeat(items):
     """the same search object searched twice (legal for search_path and for pfs search: they take &mut self)"""
     for cell, scen in items:
@@ -405,17 +423,21 @@ def items_for(prop, tier):
             items += scen_target(fl, 'bfs', n, m, ('none',))
             items += scen_target(fl, 'bfs', n, mf, ('filter',))
             items += with_repeat(scen_target(fl, 'bfs', n, 2, ('none', 'filter')))
+            items += reordered(scen_target(fl, 'bfs', n, 2, ('filter',)))
     elif prop == 'C05':
         for fl in FLAVOURS:
             items += scen_target(fl, 'dfs', n, m, ('none',))
             items += scen_target(fl, 'dfs', n, mf, ('filter',))
             items += with_repeat(scen_target(fl, 'dfs', n, 2, ('none', 'filter')))
+            items += reordered(scen_target(fl, 'dfs', n, 2, ('filter',)))
     elif prop == 'C06':
         for fl in FLAVOURS:
             items += scen_target(fl, 'pfs', n, mf, ('filter',), prios=('min', 'max'))
             items += scen_notarget(fl, 'pfs', n, m, ('foreach',), prios=('min', 'max'))
             items += scen_target(fl, 'pfs', n, mf, ('none',), prios=('min', 'max'))
             items += with_repeat(scen_target(fl, 'pfs', n, 2, ('none', 'filter'), prios=('min', 'max')))
+            items += reordered(scen_target(fl, 'pfs', n, 2, ('filter',), prios=('min', 'max')))
+            items += reordered(scen_notarget(fl, 'pfs', n, 2, ('foreach',), prios=('min', 'max')))
             if tier == 'quick':
                 # two frontier nodes that both have edges to expand need 4 edges: the simple 4-edge shapes
                 items += scen_notarget(fl, 'pfs', n, 4, ('foreach',), prios=('min', 'max'), shapes=[q for q in simple_sequences(3, 4, loops=True) if len(q) == 4])
@@ -433,10 +455,12 @@ def items_for(prop, tier):
             for alg in ('bfs', 'dfs', 'pfs'):
                 items += scen_cycle(fl, alg, n, m, ('none',), prios=('min', 'max') if alg == 'pfs' else ('min',))
                 items += scen_cycle(fl, alg, n, mf, ('filter',))
+                items += reordered(scen_cycle(fl, alg, n, 2, ('filter',), prios=('min', 'max') if alg == 'pfs' else ('min',)))
     elif prop == 'C10':
         for fl in FLAVOURS:
             items += scen_order(fl, n, m, ('none',))
             items += scen_order(fl, n, mf, ('filter',))
+            items += reordered(scen_order(fl, n, 2, ('filter',)))
     if prop == 'C10':
         # 4 nodes, <=4 edges, unfiltered node orders: cheap and needed for "third child" situations
         for fl in FLAVOURS:
